@@ -220,11 +220,11 @@ theorem send_after_client_close {s : State} (hr : Reach s) (hc : s.clientClosed 
 interferes, and then the client is closed; a `Close` of a client without a topic returns at once and changes
 nothing (`client.topic == nil`). -/
 theorem closeclient_closes (s : State) (h0 : s.closersA = 0 ∧ s.closersB = 0) (hs : s.reqSub = true)
-    (hc : s.clientDone = false ∧ s.clientClosed = false) :
+    (hc : s.clientDone = false ∧ s.clientClosed = false) (hcl : s.closing = false) :
     ∃ s', (run s [.closeEnter, .closeDone, .closeFinish]).map (·.2) = some [.blocked, .blocked, .ok] ∧
       (run s [.closeEnter, .closeDone, .closeFinish]).map (·.1) = some s' ∧
       s'.clientClosed = true ∧ s'.clientDone = true ∧ s'.objs = s.objs ∧ s'.topicClosed = s.topicClosed := by
-  simp [run, step, h0.1, h0.2, hs, hc.1, hc.2]
+  simp [run, step, h0.1, h0.2, hs, hc.1, hc.2, hcl]
 
 theorem closeclient_without_topic_is_noop (s : State) (hs : s.reqSub = false) :
     step s .closeEnter = some (s, .ok) := by
@@ -251,58 +251,43 @@ example : (run { capLow := 1 } [.new 0, .send 0 false, .new 1, .send 1 false, .c
 /-- the full claim: no step of any reachable state panics. -/
 def NeverPanics : Prop := ∀ (s s' : State) (l : Label), Reach s → step s l ≠ some (s', .panic)
 
-/-- FALSE of the code: two overlapping `Close` calls of one subscribed client both pass the entry check and
-the second `close(client.done)` panics ("close of closed channel").  Replayed on the real code by the
-harness (`doubleClose`), finding `C36|client.Close|panic-on-concurrent-close`. -/
-theorem never_panics_full_false : ¬ NeverPanics := by
-  intro h
-  have hr : Reach ({ reqSub := true, closersA := 1, closersB := 1, clientDone := true, closeOverlap := true } : State) :=
-    Reach.step (Reach.step (Reach.step (Reach.step (Reach.init 64 40960)
-      (l := .subReq) rfl rfl) (l := .closeEnter) rfl rfl) (l := .closeEnter) rfl rfl) (l := .closeDone) rfl rfl
-  exact h _ _ .closeDone hr rfl
-
-/-- the witness as a run. -/
-example : (run {} [.subReq, .closeEnter, .closeEnter, .closeDone, .closeDone]).map (·.2) =
-    some [.ok, .blocked, .blocked, .blocked, .panic] := by decide
-
-/-- **Partial**: as long as no two `Close` calls of the requester's client have overlapped (hypothesis
-`closeOverlap = false`: every `Close` began while none was in flight), no label — send, wait, unblock, close,
-… — panics in any reachable state. (`close(recv)` never panics at all: `close_recv_never_panics`.) -/
-theorem never_panics_partial {s : State} (hr : Reach s) (hser : s.closeOverlap = false) (l : Label) (s' : State) :
-    step s l ≠ some (s', .panic) := by
-  intro h
+/-- **No send, wait, unblock, reply, close, … panics, in any reachable state, under any interleaving** — in
+particular under any number of overlapping `Close` calls of the requester's client: the compare-and-swap on
+`isCloseing` lets exactly one caller run `close(client.done)` / `close(client.recv)` (`CInv.one`). -/
+theorem never_panics : NeverPanics := by
+  intro s s' l hr h
   have hc := reach_cinv hr
   rcases panic_only_close s s' l h with rfl | rfl
   · simp only [step] at h
     split at h
     · simp at h
     · rename_i a ha
-      obtain ⟨h1, h2, _⟩ := hc.serial hser
-      have hd : s.clientDone = false := h2 (by omega)
+      have hd : s.clientDone = false := hc.aOpen (by have := hc.one; omega)
       simp [hd] at h
   · simp only [step] at h
     split at h
     · simp at h
     · rename_i b hb
-      have : s.closersB = 1 := by have := hc.bLe; omega
+      have : s.closersB = 1 := by have := hc.one; omega
       simp [hc.bOpen this] at h
 
-/-- `close(client.recv)` is executed at most once, overlapping `Close` calls or not. -/
-theorem close_recv_never_panics {s : State} (hr : Reach s) (s' : State) :
-    step s .closeFinish ≠ some (s', .panic) := by
-  intro h
-  have hc := reach_cinv hr
-  simp only [step] at h
-  split at h
-  · simp at h
-  · rename_i b hb
-    have : s.closersB = 1 := by have := hc.bLe; omega
-    simp [hc.bOpen this] at h
+/-- non-vacuity: overlapping `Close` calls are reachable schedules — the second caller loses the
+compare-and-swap and returns at once while the first is still between `close(done)` and `isClosed = 1`; a
+third after completion returns at the `isClosed` check. -/
+example : (run {} [.subReq, .closeEnter, .closeEnter, .closeDone, .closeEnter, .closeFinish, .closeEnter]).map (·.2) =
+    some [.ok, .blocked, .ok, .blocked, .ok, .ok, .ok] := by decide
 
-/-- non-vacuity of the partial: a serial history with two complete `Close` calls (the second returns at
-once) keeps `closeOverlap = false`. -/
-example : (run {} [.subReq, .closeEnter, .closeDone, .closeFinish, .closeEnter]).map
-    (fun r => (r.2, r.1.closeOverlap, r.1.clientClosed)) =
-    some ([.ok, .blocked, .blocked, .ok, .ok], false, true) := by decide
+/-- **Regression witness** (the `Close` of /repo before commit c931423, configuration `oldClose := true`): two
+overlapping calls both pass the entry check and the second `close(client.done)` panics. Found by the harness's
+`probeDoubleClose` on the real code (former finding `C36|client.Close|panic-on-concurrent-close`); the probe
+stays in the check and must not fire any more. -/
+theorem old_close_panics_on_overlap :
+    (run { oldClose := true } [.subReq, .closeEnter, .closeEnter, .closeDone, .closeDone]).map (·.2) =
+      some [.ok, .blocked, .blocked, .blocked, .panic] := by decide
+
+/-- the same schedule on the current code: the second `closeEnter` is a no-op and the second `closeDone` is
+not a step at all. -/
+example : (run {} [.subReq, .closeEnter, .closeEnter, .closeDone]).map (·.2) = some [.ok, .blocked, .ok, .blocked] ∧
+    run {} [.subReq, .closeEnter, .closeEnter, .closeDone, .closeDone] = none := by decide
 
 end C36
